@@ -6,9 +6,14 @@ Open Scope Z_scope.
 
 (* META-THEOREM, proved once for every schema and every value: marshalling and
    then unmarshalling into a compatible preset gives the value back, up to the
-   identification of nil with empty containers (and nothing else) *)
+   identification of nil with empty containers (and nothing else).
+   [wf_ty' t = wf_ty t && enums_ok t && keyset_kind_ok t] (Proofs/Codec.v): besides
+   [wf_ty], (1) enum tables give distinct names to their numbers, (2) the scope
+   struct of a key set has a never-omitted field "kind" whose only encoding is
+   "user_scope".  With [wf_ty] alone the statement is false: see
+   [wf_ty_alone_fails_enum] and [wf_ty_alone_fails_keyset] in Proofs/Codec.v. *)
 Theorem C03_codec_roundtrip : forall (t : ty) (v v0 : val) (j : json),
-  wf_ty t = true -> has_type t v = true -> scopes_ok t v = true -> omit_ok t v v0 = true ->
+  wf_ty' t = true -> has_type t v = true -> scopes_ok t v = true -> omit_ok t v v0 = true ->
   enc t v = Some j ->
   exists v', dec t j v0 = Some v' /\ canon v' = canon v.
 Proof. exact codec_roundtrip. Qed.
@@ -27,19 +32,25 @@ Theorem C03_schemas_wf : forallb (fun s => wf_ty (snd s)) all_schemas = true /\ 
 Proof. exact schemas_wf. Qed.
 Print Assumptions C03_schemas_wf.
 
+(* ... and they satisfy the two side conditions of the meta-theorem *)
+Theorem C03_schemas_wf' : forallb (fun s => wf_ty' (snd s)) all_schemas = true.
+Proof. exact schemas_wf'. Qed.
+Print Assumptions C03_schemas_wf'.
+
 (* every kind: for claims as they are after Encode's stamping, what Encode writes
    is read back by the version-2 loader as the same content.  Guards that remain
    (each a recorded finding): K1 an account with tiered AND flat JetStream
    limits; K2 (inside scopes_ok) a scope template with a zero limit *)
-Definition k1_guard (k : ckind) (v : val) : bool :=
-  match k with
-  | KAccount =>
-      match getp sch_account ["nats"; "limits"; "tiered_limits"]%string v with
-      | Some (VMap (Some (_ :: _))) => val_eqb (clear_js v) v
-      | _ => true
-      end
-  | _ => true
-  end.
+(* [k1_guard] is defined in Proofs/Claims.v:
+   Definition k1_guard (k : ckind) (v : val) : bool :=
+     match k with
+     | KAccount =>
+         match getp sch_account ["nats"; "limits"; "tiered_limits"]%string v with
+         | Some (VMap (Some (_ :: _))) => val_eqb (clear_js v) v
+         | _ => true
+         end
+     | _ => true
+     end. *)
 
 Theorem C03_claims_roundtrip : forall (k : ckind) (v : val) (j : json),
   has_type (schema_of k) v = true -> scopes_ok (schema_of k) v = true -> k1_guard k v = true ->
